@@ -30,6 +30,7 @@ import (
 	. "github.com/pbenner/autodiff"
 	. "github.com/pbenner/autodiff/statistics"
 	"github.com/pbenner/autodiff/statistics/generic"
+	"github.com/pbenner/autodiff/statistics/matrixEstimator"
 	"github.com/pbenner/autodiff/statistics/scalarEstimator"
 	"github.com/pbenner/autodiff/statistics/vectorEstimator"
 	. "github.com/pbenner/threadpool"
@@ -458,6 +459,92 @@ func scalarIdScenario(kind string, weighted bool) func(ThreadPool, int, int64) r
 	}
 }
 
+// ---- matrix-valued observations: matrixEstimator.HmmEstimator (rows = positions, emissions = ScalarId(normal,
+// poisson)), matrixEstimator.MixtureEstimator over VectorId(ScalarId, ScalarId) components, matrixEstimator.VectorId
+func rowMatrix(rng *rand.Rand, n int) ConstMatrix {
+	v := make([]float64, 2*n)
+	for i := 0; i < n; i++ {
+		c := float64(2*(i%2)) - 1
+		v[2*i] = math.Round((2*c+rng.NormFloat64())*16) / 16
+		v[2*i+1] = float64(rng.Intn(3) + (i%2)*3)
+	}
+	return NewDenseFloat64Matrix(v, n, 2)
+}
+
+func idEmission(mu, lambda float64) VectorEstimator {
+	e1, _ := scalarEstimator.NewNormalEstimator(mu, 1.5, 1e-2)
+	e2, _ := scalarEstimator.NewPoissonEstimator(lambda)
+	v, err := vectorEstimator.NewScalarId(e1, e2)
+	if err != nil {
+		panic(err)
+	}
+	return v
+}
+
+func matrixHmm(chunk int) func(ThreadPool, int, int64) result {
+	return func(p ThreadPool, size int, seed int64) result {
+		rng := rand.New(rand.NewSource(seed))
+		liks := []float64{}
+		hook := generic.BaumWelchHook{Value: func(h generic.BasicHmm, i int, l, e float64) {
+			if i > 0 {
+				liks = append(liks, l)
+			}
+		}}
+		pi := NewDenseFloat64Vector([]float64{0.6, 0.4})
+		tr := NewDenseFloat64Matrix([]float64{0.7, 0.3, 0.4, 0.6}, 2, 2)
+		est, err := matrixEstimator.NewHmmEstimator(pi, tr, nil, nil, nil, []VectorEstimator{idEmission(-2, 1), idEmission(1, 3)}, 0.0, 3, hook)
+		if err != nil {
+			return result{Err: "construct: " + err.Error()}
+		}
+		est.ChunkSize = chunk
+		xs := make([]ConstMatrix, size)
+		for i := range xs {
+			xs[i] = rowMatrix(rng, 5+rng.Intn(4))
+		}
+		if err := est.EstimateOnData(xs, nil, p); err != nil {
+			return result{Err: err.Error(), Liks: liks}
+		}
+		d, err := est.GetEstimate()
+		if err != nil {
+			return result{Err: err.Error(), Liks: liks}
+		}
+		return result{Params: params(d), Liks: liks}
+	}
+}
+
+func matrixMixture(p ThreadPool, size int, seed int64) result {
+	rng := rand.New(rand.NewSource(seed))
+	liks := []float64{}
+	hook := generic.EmHook{Value: func(m generic.BasicMixture, i int, l, e float64) {
+		if i > 0 {
+			liks = append(liks, l)
+		}
+	}}
+	comp := func(mu, lambda float64) MatrixEstimator {
+		m, err := matrixEstimator.NewVectorId(idEmission(mu, lambda), idEmission(mu+1, lambda+1), idEmission(mu-1, lambda))
+		if err != nil {
+			panic(err)
+		}
+		return m
+	}
+	est, err := matrixEstimator.NewMixtureEstimator([]float64{1, 2}, []MatrixEstimator{comp(-2, 1), comp(1, 3)}, 0.0, 3, hook)
+	if err != nil {
+		return result{Err: "construct: " + err.Error()}
+	}
+	xs := make([]ConstMatrix, size+4)
+	for i := range xs {
+		xs[i] = rowMatrix(rng, 3)
+	}
+	if err := est.EstimateOnData(xs, nil, p); err != nil {
+		return result{Err: err.Error(), Liks: liks}
+	}
+	d, err := est.GetEstimate()
+	if err != nil {
+		return result{Err: err.Error(), Liks: liks}
+	}
+	return result{Params: params(d), Liks: liks}
+}
+
 func scenarios() []scenario {
 	return []scenario{
 		{"vhmm-nested-mixture", "", hmmScenario(nestedMixtures, normalData, nil, nil)},
@@ -493,6 +580,9 @@ func scenarios() []scenario {
 		{"vscalarid", "", scalarIdScenario("id", false)},
 		{"vscalarid-weighted", "", scalarIdScenario("id", true)},
 		{"vscalariid-weighted", "", scalarIdScenario("iid", true)},
+		{"mhmm-scalarid", "bw", matrixHmm(0)},
+		{"mhmm-scalarid-chunked", "", matrixHmm(2)},
+		{"mmix-vectorid", "em", matrixMixture},
 	}
 }
 
